@@ -30,7 +30,7 @@ def load_sidecars(prop):
             if k.isupper() and isinstance(v, (str, int, float)):
                 api.REG.consts[k] = v
     work = os.path.join(os.environ.get("VERIF_EVIDENCE_DIR", os.path.join(ROOT, "evidence")), "work", prop + ".extract.json")
-    if api.REG.extracts:
+    if api.REG.extracts or api.REG.flow_files:
         import subprocess
         os.makedirs(os.path.dirname(work), exist_ok=True)
         p_ = subprocess.run(["/venv/bin/python", "-m", "native.extract", prop, "--out", work], cwd=ROOT, capture_output=True, text=True)
@@ -47,8 +47,10 @@ def load_sidecars(prop):
             if isinstance(v, list):
                 return [unj(x) for x in v]
             return v
-        for k, v in json.load(open(work)).get("consts", {}).items():
+        data = json.load(open(work))
+        for k, v in data.get("consts", {}).items():
             api.REG.consts[k] = unj(v)
+        api.REG.parsed_flows = data.get("flows", {})
     return api.REG
 
 
@@ -71,6 +73,20 @@ def run(prop, tier="quick", only=None, verbose=False, workers=12):
             errors.append((c.func, type(ex).__name__, str(ex)))
             if verbose:
                 traceback.print_exc()
+    if reg.flow_contracts:
+        from coverif import v1 as cov1
+        for key, fc in reg.flow_contracts.items():
+            if only and only not in fc.flow:
+                continue
+            if fc.opts.get("assumed"):
+                eng.assumptions.add("assumed flow contract: %s (%s)" % (fc.flow, fc.opts["assumed"]))
+                continue
+            try:
+                cov1.verify_flow(eng, fc, getattr(reg, "parsed_flows", {}))
+            except (OutOfSubset, CheckerError) as ex:
+                errors.append((fc.flow, type(ex).__name__, str(ex)))
+                if verbose:
+                    traceback.print_exc()
     tgen = time.time() - t0
     z3_ms, cvc5_ms = (10000, 20000) if tier == "quick" else (120000, 120000)
     solve.discharge(eng.obls, eng.base_axioms(), z3_ms=z3_ms, cvc5_ms=cvc5_ms, workers=workers)
